@@ -130,22 +130,34 @@ func CheckDAG(c *core.Ctx, d *lref.DAG, desc string, rep Report, cfg Config, max
 		c.Count("other_category_mismatches", 1)
 		return false
 	}
-	ideals, edges, complete := Lattice(d, maxIdeals, c.OutOfBudget, func(path []int, e int, nm uint64) bool {
-		node := NewNode(cfg, idx.Epoch(d.Epoch), vals)
-		seq := append(append([]int{}, path...), e)
-		replay := func() interface{} {
-			return map[string]interface{}{"dag": d.String(), "family": desc, "order": seq}
-		}
-		for k, x := range seq {
+	// judge processes the events of the downward-closed set nm in the parents-first order seq on a fresh instance
+	// and applies every oracle; it returns false when the exploration below this state should stop
+	// feed processes events seq[from:] on node (which already processed seq[:from]); false = an event was refused
+	feed := func(node *Node, seq []int, from int) bool {
+		for k := from; k < len(seq); k++ {
+			x := seq[k]
 			err, crit := node.Process(evs[x])
 			if err != nil || crit != "" {
 				if !byz {
-					violate("accept", "accept/rejected-valid-event", replay(), "Process(e%d) = %v %s after %v; the event set is valid (forkers hold < 1/3) [%s]", x, err, crit, seq[:k], replay())
+					rp := map[string]interface{}{"dag": d.String(), "family": desc, "order": seq[:k+1]}
+					violate("accept", "accept/rejected-valid-event", rp, "Process(e%d) = %v %s after %v; the event set is valid (forkers hold < 1/3) [%s]", x, err, crit, seq[:k], rp)
 				} else {
 					c.Count("byzantine_rejections", 1)
 				}
 				return false
 			}
+		}
+		return true
+	}
+	var evaluate func(node *Node, seq []int, nm uint64) bool
+	judge := func(seq []int, nm uint64) bool {
+		node := NewNode(cfg, idx.Epoch(d.Epoch), vals)
+		return feed(node, seq, 0) && evaluate(node, seq, nm)
+	}
+	// evaluate applies every oracle to an instance that processed exactly the events of nm in the order seq
+	evaluate = func(node *Node, seq []int, nm uint64) bool {
+		replay := func() interface{} {
+			return map[string]interface{}{"dag": d.String(), "family": desc, "order": seq}
 		}
 		var ids []hash.Event
 		for _, x := range maskList(nm) {
@@ -217,7 +229,75 @@ func CheckDAG(c *core.Ctx, d *lref.DAG, desc string, rep Report, cfg Config, max
 			c.Count("ref_skipped_byzantine", 1)
 		}
 		return true
+	}
+	ideals, edges, complete := Lattice(d, maxIdeals, c.OutOfBudget, func(path []int, e int, nm uint64) bool {
+		return judge(append(append([]int{}, path...), e), nm)
 	})
+	// The lattice reaches every event set along every last event, but below that along ONE path.  State that the
+	// observation does not show (the index's branch numbering) can make an early swap matter only much later, so
+	// for every fork sibling x the complete order "index order, but x as early as its parents allow" (and, if x
+	// has no children, "x last") is run as well, judged after every event from x's new position on.
+	if d.ForkersWeight(d.Full()) > 0 && !c.OutOfBudget() {
+		n := d.N()
+		hasChild := make([]bool, n)
+		for _, e := range d.Events {
+			for _, p := range e.Parents {
+				hasChild[p] = true
+			}
+		}
+		runOrder := func(order []int, from int) {
+			node := NewNode(cfg, idx.Epoch(d.Epoch), vals)
+			var m uint64
+			for k, x := range order {
+				m |= 1 << uint(x)
+				if !feed(node, order[:k+1], k) {
+					return
+				}
+				if k >= from {
+					c.Count("displaced_sibling_order_states", 1)
+					if !evaluate(node, append([]int{}, order[:k+1]...), m) {
+						return
+					}
+				}
+			}
+		}
+		for x := range d.Events {
+			sib := false
+			for y := range d.Events {
+				sib = sib || (y != x && d.Events[y].Creator == d.Events[x].Creator && d.Events[y].Seq == d.Events[x].Seq)
+			}
+			if !sib || c.OutOfBudget() {
+				continue
+			}
+			pos := 0 // x goes right after its last parent
+			for _, p := range d.Events[x].Parents {
+				if p+1 > pos {
+					pos = p + 1
+				}
+			}
+			if pos < x {
+				var order []int
+				for i := 0; i < n; i++ {
+					if i == pos {
+						order = append(order, x)
+					}
+					if i != x {
+						order = append(order, i)
+					}
+				}
+				runOrder(order, pos)
+			}
+			if !hasChild[x] && x != n-1 {
+				var order []int
+				for i := 0; i < n; i++ {
+					if i != x {
+						order = append(order, i)
+					}
+				}
+				runOrder(append(order, x), x)
+			}
+		}
+	}
 	c.Count("states", int64(ideals))
 	c.Count("transitions", int64(edges))
 	c.Count("traces_validated_against_impl", int64(edges))
@@ -275,7 +355,7 @@ func (f ConsFamilies) OnlyForks() ConsFamilies {
 		}
 	}
 	for _, sl := range f.Sleepers {
-		if sl.Forks {
+		if sl.Forks && !(sl.OnlyLate && !sl.NestedForks) { // the pure late-fork family targets vote bookkeeping (C01/C10)
 			g.Sleepers = append(g.Sleepers, sl)
 		}
 	}
@@ -361,6 +441,9 @@ func defaultConsFamilies(quick bool, byzantine bool) ConsFamilies {
 			// a fork during the sleeping phase whose two siblings are roots of one frame and vote differently
 			// (one of them lacks one validator's tip), while an election is still open
 			{W: WV(1, 1, 1, 1), Epoch: 1, MinSleep: 2, MaxSleep: 2, Tail: 4, Forks: true, LateForks: true, LateForkMin: 2, LateForkMax: 2, OnlyLate: true, Rots: 1},
+			// one forker with three branches: an orphan sibling plus a fork of the surviving branch, and three
+			// different first events (one of them never referenced)
+			{W: WV(1, 1, 1, 1), Epoch: 1, MinSleep: 2, MaxSleep: 2, Tail: 4, Forks: true, NestedForks: true, LateForkMin: 1, LateForkMax: 1, OnlyLate: true, Rots: 1},
 		}
 		if byzantine {
 			// two light forkers whose canonical order (by weight) is not their ID order, heavy honest validators
@@ -404,6 +487,8 @@ func defaultConsFamilies(quick bool, byzantine bool) ConsFamilies {
 			{W: WV(2, 1, 1, 1), Epoch: 1, MinSleep: 2, MaxSleep: 4, Tail: 4, DropInFirstRound: true, Rots: 2},
 			{W: WV(1, 1, 1, 1), Epoch: 1, MinSleep: 1, MaxSleep: 3, Tail: 4, Forks: true, LateForks: true, LateForkMin: 1, LateForkMax: 3, OnlyLate: true, Rots: 2},
 			{W: WV(2, 1, 1, 1), Epoch: 1, MinSleep: 2, MaxSleep: 3, Tail: 4, Forks: true, LateForks: true, LateForkMin: 1, LateForkMax: 3, OnlyLate: true, Rots: 1},
+			{W: WV(1, 1, 1, 1), Epoch: 1, MinSleep: 2, MaxSleep: 3, Tail: 4, Forks: true, NestedForks: true, LateForkMin: 1, LateForkMax: 2, OnlyLate: true, Rots: 2},
+			{W: WV(2, 1, 1, 1), Epoch: 1, MinSleep: 2, MaxSleep: 2, Tail: 4, Forks: true, NestedForks: true, LateForkMin: 1, LateForkMax: 2, OnlyLate: true, Rots: 1},
 		}
 		if byzantine {
 			all(WV(1, 1, 1), 6, 2, false)
